@@ -5,8 +5,8 @@
     * `Eng.visit chain` / `Eng.poll chain` / `Eng.close chain` unfolded for the direct strategy.
 -/
 import FcLemmas.KTieFamEnv
-import FcLemmas.KTieMergeMain
-import FcProps.KTieFam
+import FcLemmas.KTieSteps
+import FcProps.KTieCore
 import Fc.Families
 
 set_option linter.unusedSimpArgs false
